@@ -57,8 +57,8 @@ pub fn val() -> String {
 
 /// element orders over the universe {a, b, c, d}
 pub const ORDERS: [&[&str]; 12] = [
-    &[], &["a"], &["a", "b"], &["b", "a"], &["a", "b", "c"], &["b", "c"], &["c"], &["c", "a", "b"], &["a", "c"], &["b"], &["d", "a", "b"],
-    &["a", "d", "b", "c"],
+    &["a", "b", "c"], &["a", "d", "b", "c"], &["b", "a"], &["a"], &[], &["b", "c"], &["c"], &["c", "a", "b"], &["a", "c"], &["b"], &["d", "a", "b"],
+    &["a", "b"],
 ];
 
 /// document with one flattened array `items♭` holding the given elements (each with value `vals[i]`) and a title
